@@ -779,6 +779,10 @@ def menus() -> dict:
         ('longname', False, flags([[1, 'n' * 1001, False, []]])),
         ('quote', False, flags([[1, 'say "hi"', False, []]])),
         ('other_key', False, flags([[8, 'Eight', True, []]], name='moreflags')),
+        # captions that themselves start with their own "[value]" label: only representable when the exporter adds
+        # the label (label_spawnflags=True) - the parser strips exactly one
+        ('ownlabel', False, flags([[4, '[4] is literally part of this caption', False, []], [8, '[8][8] twice', True, []],
+                                   [16, '[2] foreign number', False, []]])),
     ]
     # V. letter case of names
     m['names'] = [
@@ -886,6 +890,8 @@ def gen_problems(devs, cs: bool, ls: bool):
     spec = apply_devs(base_spec, get_menus(), devs)
     if not cs and spec_has_backslash(spec):
         return None, 'skip'
+    if not ls and any(list(d) == ['flags', 'ownlabel'] for d in devs):
+        return None, 'skip'       # without the exporter's label a leading [own value] is read as the label itself
     doc = build(spec)
     expect = {k: dump_ent(e) for k, e in doc.entities.items()}
     return text_roundtrip(doc, expect, cs, ls, spec['ignore_unknown'])
@@ -1211,6 +1217,35 @@ def run_history(acc: core.Acc, hist: list, blocks: list, deep: bool) -> None:
     fresh_globals()
 
 
+def run_first_query(acc: core.Acc, names: list) -> None:
+    """Every classname, in its canonical spelling and in two other spellings, as the FIRST query on a fresh database
+    (the cold path of the lazy loader), and again as a second query (the warm path)."""
+    _, ref = shipped()
+    for name in names:
+        for spelling in (name, name.upper(), name.capitalize()):
+            fresh_globals()
+            case = {'part': 'lazy_name', 'name': spelling}
+            acc.evaluations += 1
+            acc.nontrivial += 1
+            acc.count('lazy_transitions', 2)
+            try:
+                got = EntityDef.engine_def(spelling)
+                again = EntityDef.engine_def(spelling)
+            except Exception as exc:  # noqa: BLE001
+                acc.fail('lazy_exception', case, f'engine_def({spelling!r}) as first query on a fresh database: {exc_head(exc)}',
+                         exc=type(exc).__name__, where='first_query')
+                continue
+            for label, ent in (('cold', got), ('warm', again)):
+                d = dump_ent(ent)
+                if d != ref[name.casefold()]:
+                    path, a, bb = diff(ref[name.casefold()], d)[0]
+                    acc.fail('lazy_def_differs', case, f'engine_def({spelling!r}) ({label} path) {"/".join(path)}: full load {short(a)} lazy {short(bb)}',
+                             field=field_of(path), where='first_query')
+                    break
+    acc.count('lazy_histories', len(names) * 3)
+    fresh_globals()
+
+
 def run_history_then_full(acc: core.Acc, hist: list, blocks: list) -> None:
     """Lazy queries followed by a full engine_dbase(): the full load must equal a load from fresh."""
     _, ref = shipped()
@@ -1247,7 +1282,10 @@ def block_deps(blocks: list) -> dict:
     deps = {}
     for i, names in enumerate(blocks):
         db = edb.unserialise(io.BytesIO(_SHIP['raw']))
-        db.get_ent(names[0])
+        try:
+            db.get_ent(names[0])
+        except Exception:  # noqa: BLE001 - reported by the histories themselves (kind lazy_exception)
+            pass
         parsed = {j for j, (c, data) in enumerate(db.unparsed) if not data}
         deps[i] = parsed - {i}
     return deps
@@ -1327,6 +1365,9 @@ def shard(spec) -> core.Acc:
         blocks = lazy_blocks()
         for h in hists:
             run_history_then_full(acc, h, blocks)
+    elif kind == 'lazy_name':
+        run_first_query(acc, spec[1])
+        acc.sample({'part': 'lazy_name', 'names': spec[1][:3]}, 1)
     return acc
 
 
@@ -1424,6 +1465,9 @@ def run(ctx: core.Ctx) -> None:
     full_after = [[b] for b in (cluster_blocks + [0, nb - 1] if q else range(nb))] + [list(c) for c in clusters] + [[]]
     for chunk in core.chunked(full_after, 1 if q else 6):
         shards.append(('lazy_full', chunk))
+    all_names = sorted(e.classname for e in shipped()[0].entities.values())
+    for chunk in core.chunked(all_names, 60):
+        shards.append(('lazy_name', chunk))
     # (E-text 2) and (E-binary) generated
     depth = 2
     core_depth = 2 if q else 3
@@ -1483,7 +1527,7 @@ def run(ctx: core.Ctx) -> None:
     ctx.assumptions += [
         'text equivalences: empty display name == key name; boolean default ""/no == 0, yes == 1; I/O types decay per the table in fgd.py',
         'generated text space is restricted to what the syntax can carry: names/classnames/helper arguments are plain identifiers, '
-        'tags upper-case, spawnflag/choice captions without newlines or a leading [N], a spawnflags key has no display name/default/description; '
+        'tags upper-case, spawnflag/choice captions without newlines (a leading [own value] only with label_spawnflags=True), a spawnflags key has no display name/default/description; '
         'custom_syntax=False cases containing a backslash are skipped (Valve syntax has no backslash escape, srctools\' reader always applies them)',
         'binary format: descriptions, helpers, kv_order and the empty-vs-absent resource list are not stored by documented design; '
         'serialise() asserts >= 512 distinct strings, so generated engine FGDs carry four filler entities; tags/choices on keyvalues are rejected by design',
@@ -1511,4 +1555,7 @@ def replay(case: dict) -> list:
         run_history(acc, case['hist'], lazy_blocks(), True)
     elif part == 'lazy_full':
         run_history_then_full(acc, case['hist'], lazy_blocks())
+    elif part == 'lazy_name':
+        run_first_query(acc, [case['name']])
+        return [f for f in acc.all_failures()]
     return acc.all_failures()
